@@ -314,7 +314,8 @@ std::string CDNS::CdnsDecoder::read_string(CborType cbor_type, uint64_t length, 
     std::string ret;
 
     if (!indef) {
-        ret.reserve(length);
+        // The length comes from the input: don't reserve more than one buffer ahead of the data actually read
+        ret.reserve(length < BUFFER_SIZE ? length : BUFFER_SIZE);
         for (unsigned i = 0; i < length; i++) {
             read_to_buffer();
             ret.push_back(m_p[0]);
@@ -335,7 +336,7 @@ std::string CDNS::CdnsDecoder::read_string(CborType cbor_type, uint64_t length, 
             }
 
             uint64_t chunk_length = read_int(chunk_length_value);
-            ret.reserve(ret.size() + chunk_length);
+            ret.reserve(ret.size() + (chunk_length < BUFFER_SIZE ? chunk_length : BUFFER_SIZE));
             for (unsigned i = 0; i < chunk_length; i++) {
                 read_to_buffer();
                 ret.push_back(m_p[0]);
